@@ -58,6 +58,8 @@ pub struct DisplacedTable {
     changed: bool,
     lookup_table: HashMap<Value, RowId>,
     buffered_writes: Arc<SegQueue<RowBuffer>>,
+    /// Bumped by [`Table::clear`]: RowIds handed out before a clear are invalid afterwards.
+    generation: Generation,
 }
 
 struct Canonicalizer<'a> {
@@ -198,6 +200,7 @@ impl Default for DisplacedTable {
             changed: false,
             lookup_table: HashMap::default(),
             buffered_writes: Arc::new(SegQueue::new()),
+            generation: Generation::new(0),
         }
     }
 }
@@ -210,6 +213,7 @@ impl Clone for DisplacedTable {
             changed: self.changed,
             lookup_table: self.lookup_table.clone(),
             buffered_writes: Default::default(),
+            generation: self.generation,
         }
     }
 }
@@ -279,8 +283,15 @@ impl Table for DisplacedTable {
     }
 
     fn clear(&mut self) {
+        // Drop any pending data, as `Table::clear` documents.
+        while self.buffered_writes.pop().is_some() {}
+        if self.displaced.is_empty() {
+            return;
+        }
         self.uf.reset();
         self.displaced.clear();
+        self.lookup_table.clear();
+        self.generation = self.generation.inc();
     }
 
     fn all(&self) -> Subset {
@@ -296,7 +307,7 @@ impl Table for DisplacedTable {
 
     fn version(&self) -> TableVersion {
         TableVersion {
-            major: Generation::new(0),
+            major: self.generation,
             minor: Offset::from_usize(self.displaced.len()),
         }
     }
